@@ -135,6 +135,7 @@ def run_case(ctx, gd, rng, i):
 
 
 def run_shard(ctx):
+    gg.ALLOW_PREFIXED = False  # a name T_x is a selection node for the transport algorithms
     mon_ctf.install_blocks()
     mon_ctf.CONFIG.update(K={"quick": 2, "thorough": 3}[ctx.tier])
     mon_cf.CONFIG.update(K={"quick": 2, "thorough": 3}[ctx.tier])
